@@ -770,8 +770,20 @@ impl IndexManager {
         // Sorted section ends at: 8 (header block) + 16 (header) + 8 (padding) + 8 (entry block) + entry_data.len()
         let sorted_end = 8 + header_bytes.len() + 8 + 8 + entry_data.len();
 
-        // Atomic write: temp file -> fsync -> rename, retry up to 3 times
-        let temp_path = path.with_extension("tmp");
+        // Atomic write: temp file -> fsync -> rename, retry up to 3 times.
+        // The temp name is unique per call: save_all runs under the index
+        // *read* lock, so several callers can be saving the same bucket at
+        // once, and with a shared "<bucket>.tmp" one of them lost its file to
+        // the other's rename and failed. (Not an index file name: load_all
+        // ignores it.)
+        static TEMP_COUNTER: std::sync::atomic::AtomicU64 = std::sync::atomic::AtomicU64::new(0);
+        let mut temp_name = path.as_os_str().to_owned();
+        temp_name.push(format!(
+            ".{}.{}.tmp",
+            std::process::id(),
+            TEMP_COUNTER.fetch_add(1, std::sync::atomic::Ordering::Relaxed)
+        ));
+        let temp_path = std::path::PathBuf::from(temp_name);
         let mut last_error = None;
 
         for attempt in 0..3 {
